@@ -552,6 +552,13 @@ func (n *ndWriter) write(v any) {
 	n.mu.Unlock()
 }
 
+func (n *ndWriter) flush() {
+	n.mu.Lock()
+	n.w.Flush()
+	n.f.Sync()
+	n.mu.Unlock()
+}
+
 func (n *ndWriter) close() {
 	n.mu.Lock()
 	defer n.mu.Unlock()
